@@ -4,6 +4,12 @@ import ObiVerif.Lemmas.PEFast
 import ObiVerif.Lemmas.PEFillV
 import ObiVerif.Lemmas.PEVote
 import ObiVerif.Lemmas.PERows
+import ObiVerif.Lemmas.PEArena
+import ObiVerif.Lemmas.PEUnique
+import ObiVerif.Lemmas.PESingleDiag
+import ObiVerif.Lemmas.PEFragment
+import ObiVerif.Lemmas.PEQual
+import ObiVerif.Lemmas.PEAnnot
 /-!
 # C08 — paired-end assembly: valid path, optimal score, correct consensus (property theorems)
 
@@ -433,5 +439,277 @@ theorem errorfree_reassembly_repeat_false :
     consumes [-2, 2, 2, 0] 4 4 ∧
     (peAlignExact (fun _ _ => 2) (-3) 4 4).map (fun r => (r.score, r.path)) = some (8, [0, 4]) ∧
     scoreOf (fun _ _ => 2) (cALeft (-3)) (cBLeft (-3) 4) [-2, 2, 2, 0] = 4 := by decide
+
+/-! ## second deepening round -/
+
+/-! ### the arena: fast mode on the verbatim fills, `_Backtracking` on its real path buffer -/
+
+/-- **fast mode runs the verbatim fills** (was: the fast driver path executed the recurrence level).  For every
+vote result in range, every delta and every previous content of the arena, `PEAlign` in fast mode with the
+local fill transcribed as the loop nest over the flat matrices returns exactly `peAlignFastFrom`: every
+fast-mode theorem above is about what the driver executes. -/
+theorem fast_verbatim_refines (s : Nat → Nat → Int) (g : Int) (la lb delta : Nat) (shift count : Int) (m0 : Mats)
+    (hla : 0 < la) (hlb : 0 < lb) (hv : VoteInRange la lb shift count) :
+    (peAlignFastFromA s g la lb delta shift count m0).map (·.1) = peAlignFastFrom s g la lb delta shift count :=
+  peAlignFastFromA_eq s g la lb delta shift count m0 hla hlb hv.1 hv.2.1
+
+/-- **`_Backtracking` with its path buffer** (was: modelled by prepending to a list).  The slice taken from the
+arena, regrown to `2·(la+lb)` cells when too small, written from its END with a decreasing index, the result
+being `path[p:cap]`: for EVERY path matrix (also ones on which the loop fails: `none` on both sides) and EVERY
+previous content and capacity of the buffer the returned path is the list model's path; no write is ever out
+of range (`2·(la+lb)` cells always suffice), the buffer keeps its size and the path fits in it. -/
+theorem backtracking_buffer_refines (P : Nat → Nat → Int) (la lb : Nat) (buf0 : Array Int) :
+    (backtrackBuf P la lb buf0).map (·.1) = backtrack P la lb ∧
+    ∀ p b, backtrackBuf P la lb buf0 = some (p, b) →
+      b.size = (growPath buf0 ((la + lb) * 2)).size ∧ p.length ≤ (la + lb) * 2 :=
+  ⟨backtrackBuf_eq P la lb buf0, fun p b h => backtrackBuf_size P la lb buf0 p b h⟩
+
+/-- **the whole arena** (flat score / path matrices + path buffer, all holding whatever the previous pair
+left): one fill, exact mode and fast mode return exactly the recurrence-level results on which optimality,
+score = path score and path consumption are proved. -/
+theorem arena_refines (s : Nat → Nat → Int) (g : Int) (la lb : Nat) (ar : Arena) (hla : 0 < la) (hlb : 0 < lb) :
+    (fillLeftB s g la lb ar).map (·.1) = fillLeft s g la lb ∧
+    (fillRightB s g la lb ar).map (·.1) = fillRight s g la lb ∧
+    (peAlignExactB s g la lb ar).map (·.1) = peAlignExact s g la lb ∧
+    ∀ (delta : Nat) (shift count : Int), VoteInRange la lb shift count →
+      (peAlignFastFromB s g la lb delta shift count ar).map (·.1) = peAlignFastFrom s g la lb delta shift count := by
+  have e : ∀ {α : Type} (o : Option (α × Arena)), o.map (·.1) = (o.map (fun x => (x.1, x.2.m))).map (·.1) := by
+    intro α o; cases o <;> rfl
+  refine ⟨?_, ?_, ?_, ?_⟩
+  · rw [e, fillLeftB_eq]; exact fillLeftA_eq s g la lb ar.m hla hlb
+  · rw [e, fillRightB_eq]; exact fillRightA_eq s g la lb ar.m hla hlb
+  · rw [e, peAlignExactB_eq]; exact peAlignExactA_eq s g la lb ar.m hla hlb
+  · intro delta shift count hv
+    rw [e, peAlignFastFromB_eq]
+    exact peAlignFastFromA_eq s g la lb delta shift count ar.m hla hlb hv.1 hv.2.1
+
+/-! ### error-free reassembly, end to end -/
+
+/-- **the decidable uniqueness hypothesis**.  `strictAlong M … (stepsOf tp)`: in every cell of the DP matrix
+that the true path enters, the candidate coming from the true path's predecessor is strictly better than the
+other candidates of the recurrence (same condition as "the independent DP counts one optimal path").  Then the
+score of `tp` is the optimum and every consuming path scoring at least as much has the alignment columns of
+`tp` — the hypothesis of `errorfree_reassembly_columns`. -/
+theorem errorfree_unique_optimum (s : Nat → Nat → Int) (cA cB : Nat → Int) (la lb : Nat) (tp : List Int)
+    (htp : consumes tp la lb)
+    (hs : strictAlong (Mf s cA cB la) s cA cB 0 0 (stepsOf tp) = true) :
+    scoreOf s cA cB tp = Mf s cA cB la la lb ∧
+    ∀ q, consumes q la lb → scoreOf s cA cB tp ≤ scoreOf s cA cB q → columns q 0 0 = columns tp 0 0 :=
+  ⟨strictAlong_score (isFill_cells s cA cB la lb) tp htp hs,
+   fun q hq hge => unique_of_strictAlong (isFill_cells s cA cB la lb) tp q htp hq hs hge⟩
+
+/-- **the consensus along the true path is the fragment** (was: oracle only).  Reads cut from one fragment
+`X ++ O ++ Y` without sequencing error, over the 15 IUPAC symbols, any qualities (also 0): A first
+(`a = X ++ O`, `b = O ++ Y`) the consensus along `[-|X|, |O|, |Y|, 0]` is `a ++ b.drop |O|`; B first
+(`b = X ++ O`, `a = O ++ Y`) the consensus along `[|X|, |O|, -|Y|, 0]` is `b ++ a.drop |O|`. -/
+theorem consensus_true_path_is_fragment (adj : UInt8 → UInt8) (a qa b qb : Bytes) (d ov e : Nat)
+    (hqa : qa.length = a.length) (hqb : qb.length = b.length)
+    (ha : ∀ x ∈ a, x ∈ sym15) (hb : ∀ x ∈ b, x ∈ sym15) :
+    (a.length = d + ov → b.length = ov + e → (∀ k, k < ov → a.getD (d + k) 32 = b.getD k 32) →
+      ∃ c, consensus adj a qa b qb [-(d : Int), (ov : Int), (e : Int), 0] = some c ∧ c.seq = a ++ b.drop ov) ∧
+    (a.length = ov + e → b.length = d + ov → (∀ k, k < ov → a.getD k 32 = b.getD (d + k) 32) →
+      ∃ c, consensus adj a qa b qb [(d : Int), (ov : Int), -(e : Int), 0] = some c ∧ c.seq = b ++ a.drop ov) :=
+  ⟨fun hla hlb hov => consensus_true_left adj a qa b qb d ov e hla hlb hqa hqb ha hb hov,
+   fun hla hlb hov => consensus_true_right adj a qa b qb d ov e hla hlb hqa hqb ha hb hov⟩
+
+/-- **error-free reassembly, end to end, A first** (the full claim of the property is false for repeats and
+containment, see `errorfree_reassembly_repeat_false`; this is the claim under an explicit decidable
+hypothesis).  Reads `a = X ++ O`, `b = O ++ Y` without sequencing error.  If the left scheme wins
+(`hside`, a comparison of two integers) and the true path is strict in the left matrix (`hstrict`), exact
+mode returns a left alignment with the columns of the true path and `BuildQualityConsensus` along the
+returned path spells the fragment `X ++ O ++ Y`. -/
+theorem errorfree_reassembly_left (s : Nat → Nat → Int) (g : Int) (adj : UInt8 → UInt8) (a qa b qb : Bytes)
+    (d ov e : Nat) (hov : 0 < ov) (hla : a.length = d + ov) (hlb : b.length = ov + e)
+    (hqa : qa.length = a.length) (hqb : qb.length = b.length)
+    (ha : ∀ x ∈ a, x ∈ sym15) (hb : ∀ x ∈ b, x ∈ sym15)
+    (herr : ∀ k, k < ov → a.getD (d + k) 32 = b.getD k 32)
+    (hside : Mf s (cARight g b.length) (cBRight g) a.length a.length b.length
+              < Mf s (cALeft g) (cBLeft g a.length) a.length a.length b.length)
+    (hstrict : strictAlong (Mf s (cALeft g) (cBLeft g a.length) a.length) s (cALeft g) (cBLeft g a.length) 0 0
+                (stepsOf [-(d : Int), (ov : Int), (e : Int), 0]) = true) :
+    ∃ res c, peAlignExact s g a.length b.length = some res ∧ res.isLeft = true ∧
+      columns res.path 0 0 = columns [-(d : Int), (ov : Int), (e : Int), 0] 0 0 ∧
+      consensus adj a qa b qb res.path = some c ∧ c.seq = a ++ b.drop ov := by
+  have hpa : 0 < a.length := by omega
+  have hpb : 0 < b.length := by omega
+  have htp : consumes [-(d : Int), (ov : Int), (e : Int), 0] a.length b.length := by
+    rw [hla, hlb]; exact consumes_true_left d ov e
+  obtain ⟨pl, hl, hcl, hsl⟩ := fill_ok s (cALeft g) (cBLeft g a.length) a.length b.length hpa hpb
+  obtain ⟨pr, hr, _, _⟩ := fill_ok s (cARight g b.length) (cBRight g) a.length b.length hpa hpb
+  obtain ⟨_, huniq⟩ := errorfree_unique_optimum s (cALeft g) (cBLeft g a.length) a.length b.length _ htp hstrict
+  have hcol := huniq pl hcl (by rw [hsl]; exact fill_optimal_cells s _ _ a.length b.length _ htp)
+  obtain ⟨c, hc, hseq⟩ := consensus_true_left adj a qa b qb d ov e hla hlb hqa hqb ha hb herr
+  refine ⟨⟨true, Mf s (cALeft g) (cBLeft g a.length) a.length a.length b.length, pl⟩, c, ?_, rfl, hcol, ?_, hseq⟩
+  · unfold peAlignExact fillLeft fillRight
+    rw [hl, hr]
+    simp only
+    rw [if_pos hside]
+  · rw [consensus_congr adj a qa b qb pl _ hqa hqb hcl htp hcol]; exact hc
+
+/-- **error-free reassembly, end to end, B first**: `b = X ++ O`, `a = O ++ Y`; the right scheme is kept
+(`hside`: the left scheme is not strictly better) and the true path is strict in the right matrix -/
+theorem errorfree_reassembly_right (s : Nat → Nat → Int) (g : Int) (adj : UInt8 → UInt8) (a qa b qb : Bytes)
+    (d ov e : Nat) (hov : 0 < ov) (hla : a.length = ov + e) (hlb : b.length = d + ov)
+    (hqa : qa.length = a.length) (hqb : qb.length = b.length)
+    (ha : ∀ x ∈ a, x ∈ sym15) (hb : ∀ x ∈ b, x ∈ sym15)
+    (herr : ∀ k, k < ov → a.getD k 32 = b.getD (d + k) 32)
+    (hside : ¬ (Mf s (cALeft g) (cBLeft g a.length) a.length a.length b.length
+              > Mf s (cARight g b.length) (cBRight g) a.length a.length b.length))
+    (hstrict : strictAlong (Mf s (cARight g b.length) (cBRight g) a.length) s (cARight g b.length) (cBRight g) 0 0
+                (stepsOf [(d : Int), (ov : Int), -(e : Int), 0]) = true) :
+    ∃ res c, peAlignExact s g a.length b.length = some res ∧ res.isLeft = false ∧
+      columns res.path 0 0 = columns [(d : Int), (ov : Int), -(e : Int), 0] 0 0 ∧
+      consensus adj a qa b qb res.path = some c ∧ c.seq = b ++ a.drop ov := by
+  have hpa : 0 < a.length := by omega
+  have hpb : 0 < b.length := by omega
+  have htp : consumes [(d : Int), (ov : Int), -(e : Int), 0] a.length b.length := by
+    rw [hla, hlb]; exact consumes_true_right d ov e
+  obtain ⟨pl, hl, _, _⟩ := fill_ok s (cALeft g) (cBLeft g a.length) a.length b.length hpa hpb
+  obtain ⟨pr, hr, hcr, hsr⟩ := fill_ok s (cARight g b.length) (cBRight g) a.length b.length hpa hpb
+  obtain ⟨_, huniq⟩ := errorfree_unique_optimum s (cARight g b.length) (cBRight g) a.length b.length _ htp hstrict
+  have hcol := huniq pr hcr (by rw [hsr]; exact fill_optimal_cells s _ _ a.length b.length _ htp)
+  obtain ⟨c, hc, hseq⟩ := consensus_true_right adj a qa b qb d ov e hla hlb hqa hqb ha hb herr
+  refine ⟨⟨false, Mf s (cARight g b.length) (cBRight g) a.length a.length b.length, pr⟩, c, ?_, rfl, hcol, ?_, hseq⟩
+  · unfold peAlignExact fillLeft fillRight
+    rw [hl, hr]
+    simp only
+    rw [if_neg hside]
+  · rw [consensus_congr adj a qa b qb pr _ hqa hqb hcr htp hcol]; exact hc
+
+/-- **a closed condition for the uniqueness hypothesis: the overlap is the only thing that matches.**  Every
+score table that is positive on the columns of the true diagonal and negative on every other pair of
+positions (for the real tables: positive match / negative mismatch scores and no base of A equal to a base of
+B off the true diagonal), with a non-positive gap penalty: the true path is strict in the left matrix, hence
+(`errorfree_reassembly_left`) the reads are reassembled whenever the left scheme wins. -/
+theorem errorfree_single_diagonal_strict (s : Nat → Nat → Int) (g : Int) (d ov e : Nat) (hov : 0 < ov) (hg : g ≤ 0)
+    (hpos : ∀ k, k < ov → 0 < s (d + k) k)
+    (hneg : ∀ i j, i < d + ov → j < ov + e → i ≠ d + j → s i j < 0) :
+    strictAlong (Mf s (cALeft g) (cBLeft g (d + ov)) (d + ov)) s (cALeft g) (cBLeft g (d + ov)) 0 0
+      (stepsOf [-(d : Int), (ov : Int), (e : Int), 0]) = true :=
+  strictAlong_single_diagonal d ov e hov (isFill_cells s (cALeft g) (cBLeft g (d + ov)) (d + ov) (ov + e))
+    (fun j => by unfold cALeft; split <;> omega) (fun i => by unfold cBLeft; split <;> omega)
+    (by simp [cALeft]) (by simp [cBLeft]) hpos hneg
+
+/-- end to end under the closed condition -/
+theorem errorfree_reassembly_single_diagonal (s : Nat → Nat → Int) (g : Int) (adj : UInt8 → UInt8) (a qa b qb : Bytes)
+    (d ov e : Nat) (hov : 0 < ov) (hg : g ≤ 0) (hla : a.length = d + ov) (hlb : b.length = ov + e)
+    (hqa : qa.length = a.length) (hqb : qb.length = b.length)
+    (ha : ∀ x ∈ a, x ∈ sym15) (hb : ∀ x ∈ b, x ∈ sym15)
+    (herr : ∀ k, k < ov → a.getD (d + k) 32 = b.getD k 32)
+    (hpos : ∀ k, k < ov → 0 < s (d + k) k)
+    (hneg : ∀ i j, i < d + ov → j < ov + e → i ≠ d + j → s i j < 0)
+    (hside : Mf s (cARight g b.length) (cBRight g) a.length a.length b.length
+              < Mf s (cALeft g) (cBLeft g a.length) a.length a.length b.length) :
+    ∃ res c, peAlignExact s g a.length b.length = some res ∧ res.isLeft = true ∧
+      consensus adj a qa b qb res.path = some c ∧ c.seq = a ++ b.drop ov := by
+  have hstrict := errorfree_single_diagonal_strict s g d ov e hov hg hpos hneg
+  rw [← hla] at hstrict
+  obtain ⟨res, c, h1, h2, _, h4, h5⟩ :=
+    errorfree_reassembly_left s g adj a qa b qb d ov e hov hla hlb hqa hqb ha hb herr hside hstrict
+  exact ⟨res, c, h1, h2, h4, h5⟩
+
+/-- the weaker condition "the overlap occurs once" (no other offset gives a full-length exact match) is NOT
+sufficient for tables with positive match / negative mismatch scores: `ctga` / `atgg` cut from `ctgatgg`
+(true overlap `a`, path `[-3,1,3,0]`, score 5 with match +5, mismatch −1, gap −3; no other offset aligns the
+two reads without a mismatch) are aligned base to base (`t/t`, `g/g`: score 8) — concrete refutation on the model -/
+theorem errorfree_overlap_once_insufficient :
+    let a : List Nat := [2, 4, 3, 1]
+    let b : List Nat := [1, 4, 3, 3]
+    let s := fun i j => if a.getD i 0 = b.getD j 9 then (5 : Int) else -1
+    consumes [-3, 1, 3, 0] 4 4 ∧ scoreOf s (cALeft (-3)) (cBLeft (-3) 4) [-3, 1, 3, 0] = 5 ∧
+    (peAlignExact s (-3) 4 4).map (fun r => (r.score, r.path)) = some (8, [0, 4]) := by decide
+
+/-- non-vacuity of the hypotheses of `errorfree_reassembly_left` (test on one input): `gac` / `acc` cut from
+`gacc`, match +2 / mismatch −1, gap −3: the left scheme wins and the true path `[-1,2,1,0]` is strict -/
+example :
+    let a : List Nat := [3, 1, 2]
+    let b : List Nat := [1, 2, 2]
+    let s := fun i j => if a.getD i 0 = b.getD j 9 then (2 : Int) else -1
+    Mf s (cARight (-3) 3) (cBRight (-3)) 3 3 3 < Mf s (cALeft (-3)) (cBLeft (-3) 3) 3 3 3 ∧
+    strictAlong (Mf s (cALeft (-3)) (cBLeft (-3) 3) 3) s (cALeft (-3)) (cBLeft (-3) 3) 0 0 (stepsOf [-1, 2, 1, 0]) = true := by
+  decide
+
+/-! ### the quality written in every column -/
+
+/-- **the quality row and the match count, column by column, about the original reads**: column `k` holds
+`colQual` of the (base, quality) the path shows there for A and for B, in the `(qM, qm)` state left by the
+first `k` columns (`qState`: the (max, min) of the last earlier column with two different qualities);
+`seq_ab_match` counts the columns with the same symbol and two positive qualities. -/
+theorem consensus_quality_columns (adj : UInt8 → UInt8) (a qa b qb : Bytes) (p : List Int)
+    (hqa : qa.length = a.length) (hqb : qb.length = b.length) (hp : consumes p a.length b.length) :
+    ∃ c, consensus adj a qa b qb p = some c ∧
+      c.nmatch = colMatches a qa b qb (columns p 0 0) ∧
+      ∀ k, k < ncols p →
+        c.qual.getD k 0 =
+          colQual adj (qState qa qb (0, 0) ((columns p 0 0).take k))
+            (cellOf a 32 ((columns p 0 0).getD k (none, none)).1) (cellOf qa 0 ((columns p 0 0).getD k (none, none)).1)
+            (cellOf b 32 ((columns p 0 0).getD k (none, none)).2) (cellOf qb 0 ((columns p 0 0).getD k (none, none)).2) := by
+  obtain ⟨c, hc, hq, hm⟩ := consensus_qual adj a qa b qb p hqa hqb hp
+  refine ⟨c, hc, hm, fun k hk => ?_⟩
+  rw [hq]
+  exact colQuals_getD adj a qa b qb _ _ k (by rw [columns_length p 0 0 hp.1]; exact hk)
+
+/-- **the column rule for the quality** (byte arithmetic, every `adj`): a gap — or a quality-0 base — on one
+side gives the other side's quality capped at 90; a match gives the sum capped at 90; a mismatch with
+different qualities gives `max − adj(min)` capped at 90; a mismatch at EQUAL qualities gives
+`qM − adj(qm)` of the state: the value does not depend on the column's own qualities (stale `qM`/`qm`,
+transcribed as is — the property does not constrain that value). -/
+theorem quality_rules (adj : UInt8 → UInt8) (st : UInt8 × UInt8) (nA qA nB qB : UInt8) :
+    colQual adj st nA qA nB 0 = cap90 qA ∧ colQual adj st nA 0 nB qB = cap90 qB ∧
+    colQual adj st nA qA nA qB = cap90 (qA + qB) ∧
+    (qA > 0 → qB > 0 → nA ≠ nB → qA > qB → colQual adj st nA qA nB qB = cap90 (qA - adj qB)) ∧
+    (qA > 0 → qB > 0 → nA ≠ nB → qB > qA → colQual adj st nA qA nB qB = cap90 (qB - adj qA)) ∧
+    (qA > 0 → nA ≠ nB → colQual adj st nA qA nB qA = cap90 (st.1 - adj st.2)) :=
+  ⟨colQual_gapB adj st nA qA nB, colQual_gapA adj st nA nB qB, colQual_match adj st nA qA qB,
+   fun hA hB hn h => (colQual_mismatch adj st nA qA nB qB hA hB hn).1 h,
+   fun hA hB hn h => (colQual_mismatch adj st nA qA nB qB hA hB hn).2 h,
+   fun hA hn => colQual_tie_stale adj st nA nB qA hA hn⟩
+
+/-- **exact integer values with the real tables** (`adjAmd64`, the literal the driver requires the harness
+data to equal): match → `min 90 (qA + qB)`; mismatch → `min 90 (qM + mmBonus qm)` with
+`mmBonus = 0,10,7,6,5,4,3,3,2,2,2,1,…,1,0,…`: the byte subtraction of a negative correction wraps to an
+addition, a mismatch column never gets less than the higher of the two qualities. -/
+theorem quality_values (qA qB : UInt8) (hA : qA.toNat ≤ 93) (hB : qB.toNat ≤ 93) :
+    (cap90 (qA + qB)).toNat = min 90 (qA.toNat + qB.toNat) ∧
+    (cap90 (qA - adjAmd64.getD qB.toNat 0)).toNat = min 90 (qA.toNat + mmBonus.getD qB.toNat 0) ∧
+    qA.toNat ≤ qA.toNat + mmBonus.getD qB.toNat 0 :=
+  ⟨match_quality_value qA qB (by omega), mismatch_quality_value qA qB hA (by omega), by omega⟩
+
+/-- the stale tie on a concrete input (test): `aa` / `cc` with qualities 50,20 / 10,20 — the second column is a
+mismatch at equal qualities 20 and gets 50 + mmBonus(10) = 52, the value of the first column -/
+example : (consensus (fun q => adjAmd64.getD q.toNat 0) [97, 97] [50, 20] [99, 99] [10, 20] [0, 2]).map
+    (fun c => (c.seq, c.qual)) = some ([97, 109], [52, 52]) := by decide
+
+/-! ### the annotations of the record (obipairing) -/
+
+/-- **join mode**: the record is A, ten dots, B with qualities A, ten zeros, B (one quality per base), and
+carries exactly `ali_length`, `mode=join`, `score`, `score_norm`, `seq_ab_match` -/
+theorem join_record (fast : Bool) (v : Vote) (ovr : Int) (a qa b qb : Bytes) (minOverlap idn idd : Nat)
+    (r : PERes) (c : Cons) (mm : List (String × Nat)) (hqa : qa.length = a.length) (hqb : qb.length = b.length)
+    (hj : (assemble a qa b qb minOverlap idn idd r c).alignment = false) :
+    let out := assemble a qa b qb minOverlap idn idd r c
+    out.seq = a ++ List.replicate 10 46 ++ b ∧ out.qual = qa ++ List.replicate 10 0 ++ qb ∧
+    out.seq.length = a.length + 10 + b.length ∧ out.qual.length = out.seq.length ∧
+    (annotEntries fast v ovr out mm).map (·.1) = ["ali_length", "mode", "score", "score_norm", "seq_ab_match"] ∧
+    ("mode", "join") ∈ annotEntries fast v ovr out mm := by
+  have hs := (stats_consistent a qa b qb minOverlap idn idd r c).2.2.2.2.2 hj
+  have ha := annot_join fast v ovr a qa b qb minOverlap idn idd r c mm hj
+  refine ⟨hs.1, hs.2, by rw [hs.1]; simp; omega, by rw [hs.1, hs.2]; simp [hqa, hqb], ha.1, ha.2⟩
+
+/-- **alignment mode**: the annotation keys -/
+theorem alignment_annotations (fast : Bool) (v : Vote) (ovr : Int) (a qa b qb : Bytes) (minOverlap idn idd : Nat)
+    (r : PERes) (c : Cons) (mm : List (String × Nat))
+    (hj : (assemble a qa b qb minOverlap idn idd r c).alignment = true) :
+    (annotEntries fast v ovr (assemble a qa b qb minOverlap idn idd r c) mm).map (·.1) =
+      ["ali_dir", "ali_length", "mode"] ++ (if mm.isEmpty then [] else ["pairing_mismatches"]) ++
+      (if fast then ["paring_fast_count", "paring_fast_overlap", "paring_fast_score"] else []) ++
+      ["score", "score_norm", "seq_a_single", "seq_ab_match", "seq_b_single"] :=
+  (annot_alignment fast v ovr a qa b qb minOverlap idn idd r c mm hj).1
+
+/-- `score_norm` / `paring_fast_score` printed as thousandths: the integer nearest to `1000·num/den`, never
+on a rounding boundary (where the model prints `~` instead) -/
+theorem ratio_rounding_exact (num den k : Int) (hd : 0 < den) (h : thousandths num den = some k) :
+    2 * den * k ≤ 2000 * num + den ∧ 2000 * num + den < 2 * den * k + 2 * den ∧ 2000 * num - den ≠ 2 * den * (k - 1) :=
+  thousandths_spec num den k hd h
 
 end ObiVerif.Props.C08
